@@ -29,8 +29,9 @@ def run(c):
     logf, res, cached = mx.produce(c, binhash)
     c.judge(dict(fails=[tuple(x) for x in res["fails"]]), logf)
     st = res["stats"]
-    mx.need(st, ["ctlBreaker", "ctlShutdown", "ctlCoolOff", "ctlCoolWitness", "ctlPrice", "ctlRefOk", "ctlFreeOk", "hookBreaker", "hookRefActs"])
-    mx.need_eq(st, [("ctlHandlersWitnessed", "ctlHandlers"), ("hooksWitnessed", "hooks")])
+    if not c.violations:   # a violation on real-code states stands on its own; vacuity only matters for a clean result
+        mx.need(st, ["ctlBreaker", "ctlShutdown", "ctlCoolOff", "ctlCoolWitness", "ctlPrice", "ctlRefOk", "ctlFreeOk", "hookBreaker", "hookRefActs"])
+        mx.need_eq(st, [("ctlHandlersWitnessed", "ctlHandlers"), ("hooksWitnessed", "hooks")])
     c.samples = mx.samples(logf, ("Ctl", "Hook"))
     return c.finish("model_checking", dict(
         states=res["mc"]["distinct"], transitions=res["mc"]["generated"], traces_validated_against_impl=st["nodes"],
